@@ -382,7 +382,7 @@ func (x *Exec) loopHeader(f *Frame, st *State, b *ssa.BasicBlock, prev *ssa.Basi
 	var invs []*Clause
 	if c != nil {
 		for _, iv := range c.Invariants {
-			if iv.Loop == k {
+			if iv.Loop == k && (iv.Fn == "" || iv.Fn == lastName(fkey)) {
 				invs = append(invs, iv)
 			}
 		}
